@@ -123,6 +123,7 @@ func (w *world) guard(what string, f func()) (panicked bool) {
 			}
 		}
 	}()
+	engine.CurrentCall.Store(what)
 	f()
 	return
 }
